@@ -7,7 +7,7 @@ cd /verif/contracts/mirror
 changed=0
 for f in $(find . -name 'zz_*_verif.go'); do
   dst=/repo/rolling-shutter/$f
-  if ! cmp -s "$f" "$dst"; then
+  if ! cmp -s "$f" "$dst" || [ -n "$(git -C /repo status --short -- "rolling-shutter/$f")" ]; then
     mkdir -p "$(dirname "$dst")"; cp "$f" "$dst"; git -C /repo add "rolling-shutter/$f"; changed=1
   fi
 done
